@@ -78,6 +78,63 @@ theorem useCounts_iff {cfg : Config} (h : WFA cfg) (p m : Path) :
   · rintro hn ⟨V, hV, hp, g, hg, hh⟩
     exact hn ⟨V, hV, hp, g, hg, (hit_iff (h.normalI _ hV g hg) p).mp hh⟩
 
+/-- hypotheses of the C01 theorems when target paths may carry one trailing separator -/
+structure WFAD (cfg : Config) : Prop where
+  nodup : (cfg.map (fun t => dirOf t.path)).Nodup
+  normalT : ∀ t ∈ cfg, Normal (dirOf t.path)
+  normalU : ∀ t ∈ cfg, ∀ u ∈ t.uses, Normal u
+  normalI : ∀ t ∈ cfg, ∀ g ∈ t.ignores, Normal g
+
+theorem WFAD.toWFD {cfg : Config} (h : WFAD cfg) : WFD cfg := ⟨h.nodup, h.normalT⟩
+
+theorem WFA.toWFAD {cfg : Config} (h : WFA cfg) : WFAD cfg :=
+  ⟨h.toWF.toWFD.nodup, h.toWF.toWFD.normal, h.normalU, h.normalI⟩
+
+theorem ign_iff_dir {cfg : Config} (h : WFAD cfg) {T : Target} (hT : T ∈ cfg) (p : Path) :
+    T.path ∈ ignoreTargets cfg p ↔ Ign T p := by
+  rw [mem_ignoreTargets]
+  constructor
+  · rintro ⟨T', hT', hp, g, hg, hh⟩
+    have : T' = T := path_inj h.toWFD.nodupPath hT' hT hp
+    subst this
+    exact ⟨g, hg, (hit_iff (h.normalI _ hT' g hg) p).mp hh⟩
+  · rintro ⟨g, hg, hw⟩
+    exact ⟨T, hT, rfl, g, hg, (hit_iff (h.normalI _ hT g hg) p).mpr hw⟩
+
+theorem useCounts_iff_dir {cfg : Config} (h : WFAD cfg) (p m : Path) :
+    m ∉ ignoreTargets cfg p ↔ UseCounts cfg p m := by
+  unfold UseCounts
+  rw [mem_ignoreTargets]
+  constructor
+  · rintro hn ⟨V, hV, hp, g, hg, hw⟩
+    exact hn ⟨V, hV, hp, g, hg, (hit_iff (h.normalI _ hV g hg) p).mpr hw⟩
+  · rintro hn ⟨V, hV, hp, g, hg, hh⟩
+    exact hn ⟨V, hV, hp, g, hg, (hit_iff (h.normalI _ hV g hg) p).mp hh⟩
+
+/-- the nesting lookup between two configured targets -/
+theorem hit_targets {cfg : Config} (h : WFAD cfg) {T N : Target} (hT : T ∈ cfg) (hN : N ∈ cfg) :
+    hit T.path N.path = true ↔ Within (dirOf T.path) (dirOf N.path) := by
+  by_cases hTN : T = N
+  · subst hTN
+    constructor
+    · intro _; exact within_refl _
+    · intro _
+      have hne : T.path ≠ [] := by
+        intro hnil
+        have := h.normalT T hT
+        rw [hnil] at this
+        exact normal_ne_nil this (by simp [dirOf])
+      simp [hit, boundary, hne, List.isPrefixOf_iff_prefix]
+  · have hne : dirOf T.path ≠ dirOf N.path := by
+      intro heq
+      obtain ⟨i, hi, hTi⟩ := List.mem_iff_getElem.mp hT
+      obtain ⟨j, hj, hNj⟩ := List.mem_iff_getElem.mp hN
+      have hij := nodup_map_getElem_inj h.nodup (a := T) (b := N)
+        (by rw [List.getElem?_eq_getElem hi, hTi]) (by rw [List.getElem?_eq_getElem hj, hNj]) heq
+      subst hij
+      exact hTN (hTi.symm.trans hNj)
+    exact hit_nest (h.normalT T hT) hne
+
 theorem mem_analyzeChange_targets {cfg : Config} {p t : Path} :
     t ∈ (analyzeChange cfg p).targets ↔
       (t ∈ searchTargets cfg p ∨ t ∈ viaUses cfg p) ∧ t ∉ ignoreTargets cfg p := by
